@@ -914,6 +914,11 @@ and steps_loop f nb k ts =
                | None -> None)
          else Some ([], ts)
 
+(** val parse_expr : nat -> tok list -> (expr * tok list) option **)
+
+let parse_expr f ts =
+  parse_addition f false ts
+
 (** val parse_addressed_reference :
     nat -> bool -> tok list -> (reference * tok list) option **)
 
